@@ -8,6 +8,7 @@ proof rung; it is never silently skipped.
 from __future__ import annotations
 
 import ast
+import os
 import copy
 import hashlib
 import textwrap
@@ -156,10 +157,11 @@ def extract_function(repo: str, qualname: str) -> tuple[ast.FunctionDef, dict]:
 
 # --------------------------------------------------------------------------------------------------------
 class Engine:
-    def __init__(self, repo: str, registry: dict[str, Contract], feasibility_ms: int = 500):
+    def __init__(self, repo: str, registry: dict[str, Contract], feasibility_ms: int = 3000):
         self.repo = repo
         self.registry = registry  # name -> Contract   ("shape_to_strides", "MapSpec.external_indices")
         self.feas_ms = feasibility_ms
+        self.feas_rlimit = 20_000_000
         self._sink_marks: dict = {}
         self.base_axioms: list = []
         self.pure_fns: dict[str, z3.FuncDeclRef] = {}
@@ -214,6 +216,8 @@ class Engine:
             st.pc.append(c.cases[case](SYM, self.pre))
         self.case = case
         self.pre_pc = list(st.pc)
+        if not self.feasible(st):
+            raise Unsupported("vacuous: the preconditions / definitional axioms of the contract contradict each other", node)
         body = node.body
         if body and isinstance(body[0], ast.Expr) and isinstance(getattr(body[0], "value", None), ast.Constant) \
                 and isinstance(body[0].value.value, str):
@@ -224,6 +228,15 @@ class Engine:
                 self.exits.append(Exit("return", s, VNone, None, node.end_lineno))
             else:
                 raise Unsupported(f"{flow} outside loop", node)
+        # vacuity guard: the assumptions collected on the way to an exit (path conditions, loop invariants, assumed callee
+        # contracts) must not contradict each other - everything would be "proved" of such a path.  Infeasible branches
+        # are pruned where they fork, so a contradiction here comes from an assumed contract or an invariant.
+        for ex in self.exits:
+            # (exceptional exits are created under the condition of the implicit exception, which is often excluded by
+            #  what is known: those are simply unreachable)
+            if ex.kind == "return" and not self.feasible(ex.st):
+                raise Unsupported(f"vacuous: the assumptions on the path to the {ex.kind} at line {ex.line} contradict "
+                                  f"each other (an assumed contract or invariant excludes the path)", node)
         for ex in self.exits:
             self._check_exit(ex)
         info["paths"] = len(self.exits)
@@ -306,11 +319,21 @@ class Engine:
         """Cheap path pruning: only the quantifier-free part of the path condition is consulted (sound: a path is
         dropped only if that part alone is unsatisfiable)."""
         s = z3.Solver()
-        s.set("timeout", self.feas_ms)
+        # a deterministic resource limit instead of wall-clock time: the verdict must not depend on how busy the machine
+        # is (a path wrongly kept as feasible leads into code the contract excludes)
+        s.set("rlimit", self.feas_rlimit)
         for h in st.pc:
             if not _has_quantifier(h):
                 s.add(h)
-        return s.check() != z3.unsat
+        r = s.check()
+        if os.environ.get("PYVC_FEAS_STATS"):
+            try:
+                used = s.statistics().get_key_value("rlimit count")
+            except Exception:  # noqa: BLE001
+                used = -1
+            with open(os.environ["PYVC_FEAS_STATS"], "a") as fh:
+                fh.write(f"{used} {r}\n")
+        return r != z3.unsat
 
     def do_raise(self, st: State, exc: str, line, cond=None):
         """Record an exceptional exit under `cond` (None = unconditional)."""
@@ -1818,6 +1841,15 @@ class Engine:
                 return b(node, st, hint)
             if f.id in getattr(st, "closures", {}):
                 return self._inline_closure(f.id, node, st)
+            if f.id in st.env and isinstance(st.env[f.id].ty, TRec) and f"{st.env[f.id].ty.name}.__call__" in self.registry:
+                # a callable object held in a variable: its class's __call__ contract (receiver = the object)
+                c = self.registry[f"{st.env[f.id].ty.name}.__call__"]
+                args = [st.env[f.id]] + [self.eval(a, st) for a in node.args]
+                r = self.apply_contract(c, args, self._kwargs(node, st), st, node)
+                if "self" in c.modifies:
+                    st.env[f.id] = self._post_vals["self"]
+                self._writeback_modified(c, node, 1, st)
+                return r
             if f.id in self.registry:
                 args = [self.eval(a, st) for a in node.args]
                 kw = self._kwargs(node, st)
@@ -2163,6 +2195,8 @@ class Engine:
         if isinstance(v.ty, TRec):  # a record models instances of the class it is named after (typed by the contract)
             if v.ty.name == nm:
                 return z3.BoolVal(True)
+            if nm in getattr(v.ty, "class_tests", {}):  # a Bool field of the view says whether the object is of that class
+                return v.ty.get(v.t, v.ty.class_tests[nm]).t
             raise Unsupported(f"isinstance of a {v.ty.name} record against {nm}", node)
         if static is None:
             raise Unsupported(f"isinstance on {v.ty}", node)
